@@ -98,8 +98,14 @@ func (g *specGen) simpleType(depth int) map[string]any {
 func (g *specGen) propSchema(earlier []string, depth int) map[string]any {
 	switch rapid.IntRange(0, 7).Draw(g.t, "propkind") {
 	case 0:
+		if g.coin("intenum", 2) {
+			return map[string]any{"type": "integer", "format": "int32", "enum": []any{Number(1), Number(2), Number(10)}}
+		}
 		return map[string]any{"type": "integer", "format": "int32"}
 	case 1:
+		if g.coin("numenum", 3) {
+			return map[string]any{"type": "number", "enum": []any{json.Number("0.5"), Number(3)}}
+		}
 		return map[string]any{"type": "number"}
 	case 2:
 		return map[string]any{"type": "boolean"}
